@@ -15,19 +15,19 @@ import (
 type simdShape int
 
 const (
-	sUn      simdShape = iota // v -> v
-	sBin                      // v v -> v
-	sTern                     // v v v -> v
-	sShift                    // v i32 -> v
-	sTest                     // v -> i32
-	sSplat                    // x -> v
-	sExtract                  // v -> x (lane immediate)
-	sReplace                  // v x -> v (lane immediate)
-	sShuffle                  // v v -> v (16 lane immediates)
-	sLoad                     // addr -> v
-	sStore                    // addr v -> ()
-	sLoadLane                 // addr v -> v (lane immediate)
-	sStoreLane                // addr v -> () (lane immediate)
+	sUn        simdShape = iota // v -> v
+	sBin                        // v v -> v
+	sTern                       // v v v -> v
+	sShift                      // v i32 -> v
+	sTest                       // v -> i32
+	sSplat                      // x -> v
+	sExtract                    // v -> x (lane immediate)
+	sReplace                    // v x -> v (lane immediate)
+	sShuffle                    // v v -> v (16 lane immediates)
+	sLoad                       // addr -> v
+	sStore                      // addr v -> ()
+	sLoadLane                   // addr v -> v (lane immediate)
+	sStoreLane                  // addr v -> () (lane immediate)
 )
 
 type simdOp struct {
@@ -49,7 +49,9 @@ const (
 func simdOps() []simdOp {
 	var o []simdOp
 	add := func(name string, op uint32, sh simdShape) { o = append(o, simdOp{name: name, op: op, shape: sh}) }
-	addN := func(name string, op uint32, sh simdShape, n taint) { o = append(o, simdOp{name: name, op: op, shape: sh, nan: n}) }
+	addN := func(name string, op uint32, sh simdShape, n taint) {
+		o = append(o, simdOp{name: name, op: op, shape: sh, nan: n})
+	}
 	// memory
 	for _, l := range []struct {
 		n string
